@@ -246,10 +246,45 @@ def neg_in_class(cls_neg, case, impl):
     return L.run_lines(L.MODEL, [line])[0] != "OK"
 
 
+D23_TEXT = ("no zero-window probe / persist timer: the peer advertised window 0, its single window-update ACK was dropped, the sender "
+            "has nothing in flight and no timer armed - the transfer stalls although the network delivers everything from then on "
+            "(until the inactivity timer kills the connection)")
+
+
+def _final_fp(case, impl, side):
+    """fingerprint of `side` after the last step of a pair trace (each token carries the OTHER side's fingerprint)"""
+    toks = impl.split()[1:]
+    for t in reversed(toks):
+        parts = t.split("#")
+        if len(parts) >= 3 and t[0] != side and t[1] == ":":
+            return parts[1].split(",")
+    return None
+
+
+def _d23_class(case, impl, res):
+    """the stalled direction's writer ends with last_remote_window = 0 (field 8 of the fingerprint)"""
+    m = __import__("re").search(r"written (\d+)/(\d+) read (\d+)/(\d+)", res)
+    if not m:
+        return False
+    wa, wb, rb, ra = (int(x) for x in m.groups())
+    stalled = [w for w, short in (("a", rb < wa), ("b", ra < wb)) if short]
+    if not stalled or rb > wa or ra > wb:
+        return False
+    for w in stalled:
+        fp = _final_fp(case, impl, w)
+        if not fp or len(fp) < 9 or fp[8] != "0":
+            return False
+    return True
+
+
 def classify_known(kind, payload, kf):
     if kind != "predicate" or "case" not in payload:
         return None
     op = c10.open_ids(kf)
+    if payload["case"].startswith("pair "):
+        if "D23" in op and _d23_class(payload["case"], payload.get("impl", ""), payload.get("predicate_result", "")):
+            return "id=D23 %s; case `%s`" % (D23_TEXT, payload["case"][:300])
+        return None
     res = payload.get("predicate_result", "")
     for kid, cls_neg, pred_name, text in CLASSIFIERS:
         if kid in op and pred_name in res and neg_in_class(cls_neg, payload["case"], payload.get("impl", "")):
@@ -265,6 +300,17 @@ def classify_known(kind, payload, kf):
 def replay_known(kf):
     out = []
     op = c10.open_ids(kf)
+    e = op.get("D23")
+    if e:
+        for w in (e["witness"] if isinstance(e["witness"], list) else [e["witness"]]):
+            if not w.startswith("pair "):
+                continue
+            impl = L.run_lines(L.HARNESS, [w])[0]
+            p = _settle_pred(w, impl)
+            r = L.run_lines(L.MODEL, [p])[0] if p else "OK"
+            if r != "OK" and _d23_class(w, impl, r):
+                out.append("KNOWN-FINDING: property=C02 id=D23 still reproduces on the real code: the pair_settle witness of "
+                           "known_findings.json stalls with the sender's last_remote_window = 0 (%s)" % r[5:90])
     for kid, cls_neg, pred_name, text in CLASSIFIERS:
         e = op.get(kid)
         if not e or "witness" not in e:
@@ -295,3 +341,77 @@ COMPONENTS = [_comp("+".join(ALL_PREDS), "vsock", gen)]
 COMPONENTS[0]["corpus"] = ["vsock", "vsock_eof", "vsock_prompt", "vsock_rto", "vsock_shutdown"]
 # wake-ups under TRUE concurrency: the wake-up theorems assume atomic methods; two OS threads, really parked on their wakers
 COMPONENTS += [concgen.component_rx(), concgen.component_tx()]
+
+
+# ----------------------------------------------------------------------------- pair tier: eventual delivery once the network delivers
+def gen_settle(rng, tier):
+    """Two real endpoints (pair component).  Lossy phase: writes in one or both directions, polls, and a network that drops,
+    duplicates and reorders - in particular it drops ACKNOWLEDGEMENTS - with at most two clock steps beyond a retransmission
+    timeout (no segment can use up max_retx = 5).  Settle phase: every datagram in flight is delivered, both endpoints are
+    polled, both applications read, the clock advances in steps of 100 ms then 1 s (34 s in all, below the 60 s inactivity
+    limit, past every RTO that can be armed).  The link MTU is the family minimum (no MTU probes: KF1 stays out); the
+    initiator speaks first (handshake)."""
+    from . import pairgen
+    n = 60 if tier == "quick" else 1500
+    out = []
+    for i in range(n):
+        r = rng.fork("settle%d" % i)
+        cfg = pairgen.gen_config(r, r.choice(["clean", "small", "clean"]))
+        cfg[1] = cfg[2] = 576 if cfg[0] else 1280     # link at the family minimum: no MTU probes, KF1 stays out
+        cfg[3], cfg[4] = max(cfg[3], 3000), max(cfg[4], 3000)   # a receive buffer below 2 segments advertises window 0 for ever
+        cfg[9] = 5                     # max_retransmissions
+        cfg[10] = 60_000_000_000       # inactivity
+        cfg[16] = r.choice([1_000_000, 100_000_000])
+        ops, now = [], cfg[16]
+        w = {"a": 0, "b": 0}
+        big_steps = 0
+        senders = r.choice([["a"], ["a"], ["a", "b"], ["b"]])
+        # the initiator speaks first and its first datagram arrives (the acceptor leaves SynAckSent only on a packet that
+        # acknowledges its SYN-ACK; an acceptor whose peer stays silent gives up after max_retx SYN-ACKs - C17, by design)
+        ops += ["bP", "yD0", "aW100,0", "aP", "xD0", "bP", "yD0", "aP"]; w["a"] += 100
+        for rnd in range(r.range(3, 12)):
+            sd = r.choice(senders); od = "b" if sd == "a" else "a"
+            fwd, back = ("x", "y") if sd == "a" else ("y", "x")
+            ln = r.choice([1, 100, 528, 1000, 3000, 10000])
+            ops.append("%sW%d,%d" % (sd, ln, w[sd] % 251)); w[sd] += ln
+            ops.append(sd + "P")
+            for _ in range(r.range(1, 5)):
+                k = r.below(100)
+                ops.append("%s%s%d" % (fwd, "X" if k < 20 else "D", r.below(3) if k > 80 else 0))
+            ops.append(od + "P")
+            if r.below(2):
+                ops.append("%sR%d" % (od, r.choice([100, 5000, 100000])))
+            for _ in range(r.range(1, 4)):
+                k = r.below(100)
+                # acknowledgements are what gets lost most
+                ops.append("%s%s0" % (back, "X" if k < 45 else "D"))
+            ops.append(sd + "P")
+            if r.below(3) == 0:
+                step = r.choice([1_000_000, 45_000_000, 250_000_000, 1_200_000_000])
+                if step >= 250_000_000:
+                    if big_steps >= 2:
+                        step = 45_000_000
+                    else:
+                        big_steps += 1
+                now += step
+                ops.append("T%d" % now); ops += ["aP", "bP"]
+        # settle
+        for k in range(70):
+            ops += ["xD0"] * 6 + ["yD0"] * 6 + ["aP", "bP", "xD0", "xD0", "yD0", "yD0", "aR100000", "bR100000", "aP", "bP"]
+            now += 100_000_000 if k < 40 else 1_000_000_000
+            ops.append("T%d" % now)
+        ops += ["xD0"] * 4 + ["yD0"] * 4 + ["aP", "bP", "aR100000", "bR100000"] * 3
+        out.append("pair " + " ".join(str(x) for x in cfg) + " " + " ".join(ops))
+    return out
+
+
+def _settle_pred(line, out):
+    if "BADCASE" in out or "BADCONFIG" in out or "PANIC" in out:
+        return None
+    return "pair_pred c02_pair_settled_ok %s | %s" % (" ".join(line.split()[1:]), out)
+
+
+COMPONENTS += [{"name": "pair_settle", "gen": gen_settle, "corpus": [], "keep": 17,
+                "classify": lambda line, out: ("died" if ":P:E" in out else "alive"),
+                "nontrivial": lambda line, out: ":P:E" not in out and "X" in line,
+                "pred": _settle_pred}]
